@@ -1279,3 +1279,33 @@ Lemma category_table : forall r,
                | TypeMismatch => msg_TypeMismatch
                end.
 Proof. intro r. destruct r; reflexivity. Qed.
+
+(* ================= the declared type of a variable ================= *)
+Lemma lookup_declare_same : forall c x t, lookup_var (cx_vars (declare c x t)) x = Some t.
+Proof.
+  intros c x t. unfold declare. destruct (cx_vars c) as [|s r]; cbn [cx_vars lookup_var].
+  - cbn [scope_find]. rewrite bytes_eqb_refl. reflexivity.
+  - rewrite scope_find_set, bytes_eqb_refl. reflexivity.
+Qed.
+Lemma lookup_declare_other : forall c x t y, x <> y ->
+  lookup_var (cx_vars (declare c x t)) y = lookup_var (cx_vars c) y.
+Proof.
+  intros c x t y H. apply bytes_eqb_neq in H. unfold declare. destruct (cx_vars c) as [|s r]; cbn [cx_vars lookup_var].
+  - cbn [scope_find]. rewrite H. reflexivity.
+  - rewrite scope_find_set, H. reflexivity.
+Qed.
+(* after `make x get e` the type of x is the one of this initialiser, whatever x was before *)
+Lemma make_retypes : forall c sid x l e,
+  lookup_var (cx_vars (after c (SMake sid x l e))) x
+  = Some (match infer c e with Some t => t | None => TDynamic end).
+Proof. intros. cbn [after]. apply lookup_declare_same. Qed.
+Lemma make_keeps_others : forall c sid x l e y, x <> y ->
+  lookup_var (cx_vars (after c (SMake sid x l e))) y = lookup_var (cx_vars c) y.
+Proof. intros. cbn [after]. apply lookup_declare_other. assumption. Qed.
+(* only `make` changes what is declared, and with which type *)
+Lemma only_make_retypes : forall c s, (forall sid x l e, s <> SMake sid x l e) -> after c s = c.
+Proof. intros c s H. destruct s; try reflexivity. exfalso. exact (H _ _ _ _ eq_refl). Qed.
+(* a block does not leak its declarations or retypings: its statements are checked in a pushed scope
+   and the statement after the block is checked in the context of the statement before it *)
+Lemma block_is_transparent : forall c sid b, after c (SBlock sid b) = c.
+Proof. reflexivity. Qed.
